@@ -37,16 +37,7 @@ PROPOSED_KNOWN["C11-dropped-override-left-behind"] = dict(
                "and not of this one", every_other_owned_path="equal to the fresh build", model_agrees=True))
 
 # repair exists as a patch that /repo does not contain yet (see c10.PENDING_FIXES for the protocol)
-PENDING_FIXES = {
-    "C11-stale-own-tick-entry": dict(
-        id="C11-stale-own-tick-entry", property="C11", patch="fixes/C11-stale-own-tick-entry.patch",
-        what="a tick.json that outlives the rebuild (inside a #static folder such as `#static \"../minecraft\"`, brought by #copy, or left in a "
-             "tree whose namespace folder was removed by hand) keeps naming <ns>:__tick__ after the tick function is gone: load.json is "
-             "always rewritten without the pack's stale entries, tick.json only when a tick function exists - compiling.py build(); "
-             "theorem C11_stale_tick_refuted_hardened; repaired by fixes/C11-stale-own-tick-entry.patch",
-        match=dict(rcode_bit=2, differing_paths="only data/minecraft/tags/function(s)/tick.json inside a #static folder",
-                   difference="the recovered values minus the entries `<ns>:...` are the fresh values", model_agrees=True)),
-}
+PENDING_FIXES = {}   # every pending repair has been committed upstream; known_findings.json is the only authority
 
 
 def stale_tick_only(job: dict, b_rec: dict, oracle: list) -> bool:
